@@ -91,7 +91,7 @@ func cmdCheck(args []string) int {
 	}
 	jobs := make([]*job, len(cfg.Units))
 	var wg sync.WaitGroup
-	sem := make(chan struct{}, 3)
+	sem := make(chan struct{}, 6) // units in flight; solver processes are bounded separately (procSem)
 	var missing []string
 	for i, key := range cfg.Units {
 		full := modPath + "/" + key
@@ -384,6 +384,7 @@ func cmdCheck(args []string) int {
 				if len(r.LocalTypes) > 0 {
 					lt[r.Key] = r.LocalTypes
 					lt[r.Key+"#all"] = r.AllLocals
+					lt[r.Key+"#roles"] = r.LocalRoles
 				}
 			}
 		}
